@@ -730,17 +730,17 @@ Proof.
   apply (Hc cs2 r cs1 r1); auto. congruence.
 Qed.
 
-Theorem walk_hardlinks_proof t : wf_tree t -> ino_consistent t ->
+Theorem walk_hardlinks_proof t : wf_tree t -> one_fs t -> ino_consistent t ->
   forall st, In st (walk t) ->
   forall cs r, cs <> [] -> tree_at t cs r -> st_path st = joinc cs -> is_dir r = false ->
   exists cs0 r0,
-    cs0 <> [] /\ tree_at t cs0 r0 /\ is_dir r0 = false /\ l_ino r0 = l_ino r /\
+    cs0 <> [] /\ tree_at t cs0 r0 /\ is_dir r0 = false /\ l_ino r0 = l_ino r /\ l_dev r0 = l_dev r /\
     (forall cs1 r1, cs1 <> [] -> tree_at t cs1 r1 -> is_dir r1 = false -> l_ino r1 = l_ino r ->
                     cs1 = cs0 \/ path_lt (joinc cs0) (joinc cs1)) /\
     st_linkname st = (if is_symlink r then l_target r
                       else if bytes_eqb (joinc cs0) (joinc cs) then [] else joinc cs0).
 Proof.
-  intros Hwf Hc st Hin cs r Hne Hat Hp Hd.
+  intros Hwf Hfs Hc st Hin cs r Hne Hat Hp Hd.
   destruct (walk_entry _ _ Hin) as (pre & p & r' & post & cs' & E & -> & Hne' & -> & Hat').
   rewrite mkstat_path in Hp.
   destruct (node_unique t cs' r' cs r Hwf Hne' Hne Hat' Hat Hp) as [-> ->].
@@ -749,7 +749,7 @@ Proof.
   destruct (scan_linkname _ (entries_consistent t Hwf Hc) Hnd pre (joinc cs) r post E Hd) as (f & Hf & Hl).
   destruct (first_of_least path_lt _ _ _ HS Hf) as ((r0 & Hi0 & Hd0 & Hino0) & Hleast).
   apply entries_in in Hi0. destruct Hi0 as (cs0 & Hne0 & -> & Hat0).
-  exists cs0, r0. repeat (split; [assumption|]). split; [|exact Hl].
+  exists cs0, r0. repeat (split; [assumption|]). split; [eapply Hfs; eauto|]. split; [|exact Hl].
   intros cs1 r1 Hne1 Hat1 Hd1 Hino1.
   assert (Hi1 : In (joinc cs1, r1) (entries_root (sort_tree t))) by (apply entries_in; exists cs1; auto).
   destruct (Hleast _ _ Hi1 Hd1 Hino1) as [Eq|Hlt]; [left|right; exact Hlt].
@@ -1075,7 +1075,7 @@ Definition wf_view (roots : list node) : Prop := StronglySorted vname_lt roots /
 
 Definition dummy_rec : lrec :=
   {| l_mode := 0; l_uid := 0; l_gid := 0; l_size := 0; l_mtime := 0; l_rdev := 0; l_ino := 0; l_nlink := 0;
-     l_target := []; l_xattrs := [] |}.
+     l_target := []; l_xattrs := []; l_dev := 0 |}.
 Fixpoint tok (n : node) : bytes * tree :=
   match n with Node name _ _ kids => (name, T dummy_rec (map tok kids)) end.
 
@@ -1171,4 +1171,71 @@ Proof.
   rewrite andb_true_iff, IH, all_lt_spec. split.
   - intros [H1 H2]. constructor; auto.
   - intros H. inversion H; subst. auto.
+Qed.
+
+(* ---------- the boolean well-formedness check implies wf_tree ---------- *)
+Lemma mem_N_in x l : mem_N x l = true <-> In x l.
+Proof.
+  induction l as [|y l IH]; simpl; [split; [discriminate|contradiction]|].
+  rewrite orb_true_iff, IH, N.eqb_eq. split; intros [H|H]; auto.
+Qed.
+
+Lemma wf_name_b_sound n : wf_name_b n = true -> wf_name n.
+Proof.
+  unfold wf_name_b. rewrite !andb_true_iff, !negb_true_iff. intros (((H1 & H2) & H3) & H4).
+  apply bytes_eqb_neq in H1, H3, H4. repeat split; auto.
+  intro Hin. apply mem_N_in in Hin. congruence.
+Qed.
+
+Lemma nodup_b_sound l : nodup_b l = true -> NoDup l.
+Proof.
+  induction l as [|x l IH]; simpl; intros H; constructor; apply andb_true_iff in H; destruct H as [H1 H2]; auto.
+  intro Hin. apply mem_bytes_in in Hin. rewrite Hin in H1. discriminate.
+Qed.
+
+Lemma wf_tree_b_sound t : wf_tree_b t = true -> wf_tree t.
+Proof.
+  induction t as [r kids IH] using tree_ind'. cbn [wf_tree_b].
+  rewrite !andb_true_iff. intros (((H1 & H2) & H3) & H4). constructor.
+  - intros Hd. rewrite Hd in H1. destruct kids; [reflexivity|discriminate].
+  - rewrite forallb_forall in H2. apply Forall_forall. intros nk Hi. apply wf_name_b_sound. auto.
+  - apply nodup_b_sound. exact H3.
+  - rewrite forallb_forall in H4. rewrite Forall_forall in *. intros [n k] Hi. apply (IH (n, k) Hi).
+    apply (H4 (n, k) Hi).
+Qed.
+
+(* ---------- refutation of the hard-link rule across devices ---------- *)
+(* Two devices below one root (e.g. two mounts), on each a regular file "f" with a second link "g":
+   both inodes carry number 2, as two fresh file systems do.  seenFiles is keyed by st_ino alone. *)
+Definition xrec (mode ino nlink dev : N) : lrec :=
+  {| l_mode := mode; l_uid := 0; l_gid := 0; l_size := 8; l_mtime := 1; l_rdev := 0;
+     l_ino := ino; l_nlink := nlink; l_target := []; l_xattrs := []; l_dev := dev |}.
+Definition t_xdev : tree :=
+  T (xrec 16877 1 4 38)
+    [ ([109; 49], T (xrec 17407 1 2 39) [ ([102], T (xrec 33188 2 2 39) []); ([103], T (xrec 33188 2 2 39) []) ]);
+      ([109; 50], T (xrec 17407 1 2 40) [ ([102], T (xrec 33188 2 2 40) []); ([103], T (xrec 33188 2 2 40) []) ]) ].
+
+Theorem walk_hardlinks_cross_device_refuted_proof :
+  exists t, wf_tree t /\ ino_consistent t /\
+    exists st cs r cs0 r0,
+      In st (walk t) /\ cs <> [] /\ tree_at t cs r /\ st_path st = joinc cs /\
+      is_dir r = false /\ is_symlink r = false /\
+      cs0 <> [] /\ tree_at t cs0 r0 /\ st_linkname st = joinc cs0 /\ l_dev r0 <> l_dev r.
+Proof.
+  exists t_xdev. split; [apply wf_tree_b_sound; vm_compute; reflexivity|]. split.
+  - intros cs1 r1 cs2 r2 H1 _ _ Hd1 _ _. apply rpr_tree_at in H1. vm_compute in H1.
+    repeat (destruct H1 as [H1|H1]; [inversion H1; subst; try reflexivity; vm_compute in Hd1; discriminate|]).
+    contradiction.
+  - exists (nth 4 (walk t_xdev) (fst (mkstat [] (xrec 0 0 0 0) []))).
+    exists [[109; 50]; [102]], (xrec 33188 2 2 40), [[109; 49]; [102]], (xrec 33188 2 2 39).
+    split; [vm_compute; auto 10|].
+    split; [discriminate|].
+    split; [apply rpr_tree_at; vm_compute; auto 10|].
+    split; [vm_compute; reflexivity|].
+    split; [vm_compute; reflexivity|].
+    split; [vm_compute; reflexivity|].
+    split; [discriminate|].
+    split; [apply rpr_tree_at; vm_compute; auto 10|].
+    split; [vm_compute; reflexivity|].
+    vm_compute. discriminate.
 Qed.
